@@ -351,7 +351,6 @@ for K, mod in ((SFixed, "cohdl.std._fixed:SFixed."), (UFixed, "cohdl.std._fixed:
             c = Case(f"narrow-left,keep-fraction,{sub},{rs.name},WRAP", [FxShape(K, "a"), PyInt("l", None, None, -6, 8), PyInt("r", None, None, -8, 6)], wrap_spec(K, sub), requires=req,
                      kwargs={"round_style": C.Const(rs, "rs"), "overflow_style": C.Const(OS.WRAP, "os")})
             c.native = False
-            c.may_reject = AssertionError
             c.interp_flags = {"arith_hints": True}
             c.timeout_factor = 4
             con.cases.append(c)
@@ -370,7 +369,6 @@ for K, mod in ((SFixed, "cohdl.std._fixed:SFixed."), (UFixed, "cohdl.std._fixed:
                 c = Case(f"{branch},{rs.name},{os_.name}", [FxShape(K, "a"), PyInt("l", None, None, -6, 8), PyInt("r", None, None, -8, 6)], resize_spec(K, branch, rs, os_), requires=req,
                          kwargs={"round_style": C.Const(rs, "rs"), "overflow_style": C.Const(os_, "os")})
                 c.native = False
-                c.may_reject = AssertionError
                 c.interp_flags = {"arith_hints": True}
                 c.timeout_factor = 4
                 con.cases.append(c)
